@@ -13,6 +13,8 @@ Driver for C20 (interactive, one flushed answer line per request line).
   sget <hexkey>                 what the stub server holds under that key:  v=<value>|-  present=T|F
   smatch <hexpat>               what the stub server holds under the keys matching that pattern:  ks=<hexkey>,… ps=<hexkey>=<value>,…
   op <command>                  one step of the client-side model → model=<out> q=<pending announcements per client>
+                                (`refuse <i>` = a reconnect attempt of the dropped client i that is refused)
+  loc <i> <hexkey>…             the model's local copy of client i at this point:  started=T|F loc=<hexkey>=<value>|A,…  (live entries only)
   dump                          stub keyspace / model keyspace
 -/
 open CashewsVerif CashewsVerif.Redis CashewsVerif.Redis.Proto CashewsVerif.Redis.CS
@@ -53,6 +55,7 @@ def parseCOp? (n : Nat) : List String → Option CS.Op
   | ["deliver", c] => do pure (.deliver (← client? n c))
   | ["drop", c] => do pure (.drop (← client? n c))
   | ["reconnect", c] => do pure (.reconnect (← client? n c))
+  | ["refuse", c] => do pure (Op.refused (← client? n c))     -- a refused reconnect attempt: the `except` branch again
   | ["adv", dt] => do pure (.adv (← dt.toNat?))
   | _ => none
 
@@ -115,6 +118,15 @@ def step (st : DSt) (line : String) : DSt × String :=
     | some op =>
       let (m', o) := CS.step st.model op
       ({ st with model := m' }, s!"model={showOut o} q={qlens st.n m'}")
+  | "loc" :: i :: ks =>
+    match client? st.n i, keys? ks with
+    | some c, some keys =>
+      let cl := st.model.cl c
+      let ents := keys.filterMap fun k =>
+        (cl.lfind (now st.model) k).map fun e =>
+          toHex k ++ "=" ++ (match e.val with | .val v => showCVal v | .absent => "A")
+      (st, s!"started={if cl.started then "T" else "F"} loc={",".intercalate ents}")
+    | _, _ => (st, "bad-op")
   | ["dump"] => (st, s!"stub={dumpKS st.stub.srv.ks} model={dumpKS st.model.srv.ks}")
   | _ => (st, "bad-op")
 
